@@ -7,6 +7,7 @@ import MiniMcmcVerif.Driver.C18
 import MiniMcmcVerif.Driver.C17
 import MiniMcmcVerif.Driver.Stats
 import MiniMcmcVerif.Driver.C07
+import MiniMcmcVerif.Driver.C10
 
 open MiniMcmcVerif MiniMcmcVerif.Driver
 
@@ -25,6 +26,8 @@ def dispatch (line : String) : String :=
   | "c12a" :: args => c12a args
   | "c13" :: args => c13 args
   | "c07" :: args => c07 args
+  | "c10" :: args => c10 args
+  | "c10w" :: args => c10w args
   | _ => "bad-op"
 
 partial def loop (h : IO.FS.Stream) (out : IO.FS.Stream) : IO Unit := do
